@@ -449,6 +449,17 @@ func (g *Gen) srcDef(rel, fn, lean string) error {
 	return nil
 }
 
+// fpDef emits the fingerprint (hash of the canonical signature + body text) of a function the
+// model transcribes by hand: a change means "re-validate the model", the correspondence decides.
+func (g *Gen) fpDef(rel, fn, lean string) error {
+	fp, err := g.Fingerprint(rel, fn)
+	if err != nil {
+		return err
+	}
+	g.P("def %s : String := %s", lean, leanStr(fp))
+	return nil
+}
+
 func genC07(g *Gen) error {
 	const (
 		encInt  = "lib/encoding/int.go"
@@ -612,20 +623,26 @@ func genC07(g *Gen) error {
 	for _, f := range [][3]string{
 		{s8b, "canPack", "src_canPack"},
 		{s8b, "Decode", "src_s8bDecode"},
-		{encInt, "Integer.init", "src_intInit"},
-		{encInt, "Integer.Encoding", "src_intEncoding"},
-		{encInt, "Integer.encodingConstDelta", "src_intEncodingConstDelta"},
-		{encInt, "Integer.encodingSimple8b", "src_intEncodingSimple8b"},
-		{encInt, "Integer.encodingZSTD", "src_intEncodingZSTD"},
-		{encInt, "Integer.uncompressedData", "src_intUncompressedData"},
-		{encInt, "Integer.decodeInit", "src_intDecodeInit"},
-		{encInt, "Integer.Decoding", "src_intDecoding"},
-		{encInt, "Integer.decodingConstDelta", "src_intDecodingConstDelta"},
-		{encInt, "Integer.decodingSimple8b", "src_intDecodingSimple8b"},
-		{encInt, "Integer.decodingUncompressed", "src_intDecodingUncompressed"},
 		{encStr, "compressionRation", "src_compressionRation"},
 	} {
 		if err := g.srcDef(f[0], f[1], f[2]); err != nil {
+			return err
+		}
+	}
+	for _, f := range [][3]string{
+		{encInt, "Integer.init", "fp_intInit"},
+		{encInt, "Integer.Encoding", "fp_intEncoding"},
+		{encInt, "Integer.encodingConstDelta", "fp_intEncodingConstDelta"},
+		{encInt, "Integer.encodingSimple8b", "fp_intEncodingSimple8b"},
+		{encInt, "Integer.encodingZSTD", "fp_intEncodingZSTD"},
+		{encInt, "Integer.uncompressedData", "fp_intUncompressedData"},
+		{encInt, "Integer.decodeInit", "fp_intDecodeInit"},
+		{encInt, "Integer.Decoding", "fp_intDecoding"},
+		{encInt, "Integer.decodingConstDelta", "fp_intDecodingConstDelta"},
+		{encInt, "Integer.decodingSimple8b", "fp_intDecodingSimple8b"},
+		{encInt, "Integer.decodingUncompressed", "fp_intDecodingUncompressed"},
+	} {
+		if err := g.fpDef(f[0], f[1], f[2]); err != nil {
 			return err
 		}
 	}
